@@ -311,7 +311,9 @@ def run(ctx):
         "build": lambda: warm_build(ctx),
     }
     if not quick:
-        jobs["live"] = lambda: ctx.tlc(SPEC, "peers/PoolLive.cfg", timeout=2400, workers=max(2, W // 4))
+        # liveness (WaitersWoken, CancelHonoured, AllReturn under weak fairness) and a three-caller instance
+        jobs["live"] = lambda: ctx.tlc(SPEC, "peers/PoolLive.cfg", timeout=3000, workers=max(2, W // 4))
+        jobs["fine3"] = lambda: ctx.tlc(SPEC, "peers/PoolFine3.cfg", timeout=3000, workers=max(2, W // 4))
     R = parallel(ctx, jobs)
     if R["fine"].ok and R["mgr"].ok:
         ctx.cover(exhaustive=True)
